@@ -320,6 +320,29 @@ def run_store_case(ctx, case, env, replies):
         else:
             if want.size and calls != sorted(slices_all):
                 return f'whole-array read requested {calls[:8]}, stored chunks are {sorted(slices_all)[:8]}'
+        # ---- two lazy arrays of the same stored array restricted to different windows, computed in ONE graph
+        if x.ndim and not offset and len(chunks[0]) >= 2 and x.size:
+            sizes = list(chunks[0])
+            starts = np.cumsum([0] + sizes)
+            pairs = [(i, j) for i in range(len(sizes)) for j in range(i + 1, len(sizes)) if sizes[i] == sizes[j]]
+            i, j = pairs[0] if pairs else (0, len(sizes) - 1)
+            wins = [(slice(int(starts[k]), int(starts[k + 1])),) + tuple(slice(0, n) for n in x.shape[1:])
+                    for k in (i, j)]
+            try:
+                lazies = [store.get_dask_array(name, chunks, dtype, index=w, errors=case['errors']) for w in wins]
+                outs = dask.compute(*lazies)
+                diff = (lazies[1] != lazies[0]).any().compute() if x.dtype.kind in 'iufb' and sizes[i] == sizes[j] \
+                    else None
+            except Exception as e:   # noqa: BLE001
+                return f'two windowed lazy reads computed together raised {type(e).__name__}: {str(e)[:160]}'
+            for w, o in zip(wins, outs):
+                if not zoo.same_array(o, x[w]):
+                    return (f'two lazy arrays of one stored array restricted to rows {wins[0][0]} and {wins[1][0]} and '
+                            f'computed in one graph: the one for rows {w[0]} differs from x[index]')
+            if diff is not None and bool(diff) != bool((x[wins[0]] != x[wins[1]]).any()):
+                return (f'comparing the lazy arrays for rows {wins[0][0]} and {wins[1][0]} inside one graph gives '
+                        f'{bool(diff)} but the stored windows give {not bool(diff)}')
+            ctx.tag('two-windows-one-graph' + ('-equal-chunks' if pairs else ''))
     return None
 
 
